@@ -626,7 +626,7 @@ def gen_c14(tier, rng):
             cases.append("fbt %s k%d %d" % (zid, key, t))
         for c in civ:
             cases.append("hmt %s %s" % (zid, fmt_cs(c)))
-            cases.append("fmt %s k%d %s" % (zid, key, fmt_cs(c)))
+            cases.append("fmk %s k%d %s" % (zid, key, fmt_cs(c)))
         cases.append("reload %s q%d" % (zid, key))
     # failed names stay failed
     zones = zones + [("bad_magic", b"XZif2" + b"\0" * 200), ("bad_empty", b"")]
@@ -643,7 +643,7 @@ def post_c14(cases, impl):
     bad = []
     for i in range(1, len(cases)):
         a = cases[i].split()
-        if a[0] in ("fbt", "fmt"):
+        if a[0] in ("fbt", "fmk"):
             p = cases[i - 1].split()
             if p[0] in ("hbt", "hmt") and p[1] == a[1] and p[2:] == a[3:]:
                 if impl[i] != impl[i - 1]:
